@@ -372,9 +372,9 @@ VARIANTS_OF = {
     "C05": {"quick": ["default", "be:idnkit", "uchar"], "thorough": ["default", "be:idnkit", "uchar"]},
     "C09": {"quick": ["default", "ndebug", "underscore"], "thorough": ["default", "ndebug", "underscore"]},
     "C13": {"quick": ["default", "be:idnkit", "be:idnkit+extra"], "thorough": ["default", "be:idnkit", "be:idn", "be:idnkit+extra", "be:idn+extra", "extra"]},
-    "C15": {"quick": ["default", "be:idn"], "thorough": ["default", "be:idn", "be:idnkit"]},
+    "C15": {"quick": ["default", "be:idn", "underscore"], "thorough": ["default", "be:idn", "be:idnkit", "underscore"]},
     "C07": {"quick": ["default", "underscore", "be:idn", "uchar"], "thorough": ["default", "underscore", "be:idn", "be:idnkit", "uchar"]},
-    "C16": {"quick": ["default", "extra", "be:idnkit+extra"], "thorough": ["default", "extra", "be:idnkit+extra", "be:idn+extra"]},
+    "C16": {"quick": ["default", "extra", "be:idnkit+extra", "uchar", "extra+ndebug"], "thorough": ["default", "extra", "be:idnkit+extra", "be:idn+extra", "uchar", "extra+ndebug"]},
     "C17": {"quick": ["default", "rfc20", "rfc5322", "underscore", "rebuilt", "rfc5322+uchar", "rfc20+rfc5322+underscore@readme"],
             "thorough": ["default", "rfc20", "rfc5322", "underscore", "rfc20+rfc5322", "rfc20+underscore", "rfc5322+underscore", "all3", "rebuilt", "rfc5322+uchar",
                          "rfc20+rfc5322+underscore@readme"]},
@@ -1394,7 +1394,31 @@ def c15(ctx):
     for n in ([10, 40] if ctx.tier == "quick" else [10, 40, 100]):
         for _ in range(40 if ctx.tier == "quick" else 400):
             scripts.append(hg.random_history(n, H_ADDRS + kinds, inject=True))
+    # every class allowed (and more bits set): a rejection followed by an acceptance on the same object - 1 is returned iff 'no error' is recorded
+    for k_ in (2044, 2046, 2047, 4095, 1020):
+        for bad_ in (b"user@host.nosuchtldxyz", b"a..b@b.com", "user@\u2665.de".encode(), b"user@b"):
+            for m0 in (6531, 5321):
+                scripts.append("i;r%d;k%d;s;e%s;m;e%s;m;e%s;m;e%s;m;f" % (m0, k_, hx(bad_), hx(b"user@gmail.com"), hx(bad_), hx(b"a@x.test")))
     check_histories(ctx, "errstr-history", list(dict.fromkeys(scripts)))
+    # a LABELS_ALLOW_UNDERSCORE build: the domain codes name conditions that hold when '_' counts as a letter
+    if "underscore" in ctx.drives:
+        ud = [b"1_2.3_4", b"_1._2", b"2022_10_09.1", b"_", b"192_168.0.1", b"1_2", b"_._", b"a_b.3_4", b"1.2.3", b"12.34", b"a_", b"_a.com", b"x._y.org", b"1_.2-3", b"-_.com", b"_-.com", b"a_-b.com",
+              b"_" * 63 + b".com", b"_" * 64 + b".com", b"1_" * 31 + b"1.com", b"9" * 63 + b"._"]
+        hos = ctx.spec(["sD 1 %s" % hx(d_) for d_ in ud])
+        for m in MODES:
+            cu_ = ctx.K("underscore-codes%d" % m, "underscore", ["P %d 0 760 %s" % (m, hx(b"user@" + d_)) for d_ in ud], nontrivial=lambda op, ln: True)
+            for d_, ln, ho in zip(ud, cu_, hos):
+                f = fields(ln)
+                if "FAULT" in ln:
+                    continue
+                ec_ = int(f[2])
+                opx = "P %d 0 760 %s" % (m, hx(b"user@" + d_))
+                if ec_ == 22 and not all(b_ in b"0123456789." for b_ in d_):
+                    ctx.S("LABELS_ALLOW_UNDERSCORE build: 'domain is all-numeric' reported for a domain that has other characters than digits and dots", op=opx, variant="underscore", impl=ln)
+                if m != 6531 and ho == "sD 1" and 16 <= ec_ <= 22:
+                    ctx.S("LABELS_ALLOW_UNDERSCORE build: a domain error is reported for a host name that is valid with '_' as a letter", op=opx, variant="underscore", impl=ln)
+                if m != 6531 and ho == "sD 1" and f[1] != "1":
+                    ctx.S("LABELS_ALLOW_UNDERSCORE build: an address on a host name valid with '_' as a letter is refused (TLD checking off)", op=opx, variant="underscore", impl=ln)
     ctx.extra_cov["error_codes_produced"] = sorted(seen_codes)
     missing = sorted(set(range(0, 36)) - seen_codes - {1})
     ctx.extra_cov["error_codes_not_produced"] = missing
@@ -1408,8 +1432,8 @@ def c16(ctx):
     strs += [b"a@" + ((a_ * n1 + "." + b_ * n1 + "." + a_ * n1 + b_ + "." + t_).encode()) for a_, b_ in (("中", "国"), ("ж", "я")) for n1 in (30, 45) for t_ in ("com", "рф")]
     strs = list(dict.fromkeys(strs))
     spi = dict(zip(strs, ctx.spec(["sI %s" % hx(split_addr(s)[1] or b"") for s in strs])))
-    for v in ["default", "extra"] + [x for x in ctx.drives if x.startswith("be:")]:
-        if v.startswith("be:"):
+    for v in ["default", "extra"] + [x for x in ("uchar", "extra+ndebug") if x in ctx.drives] + [x for x in ctx.drives if x.startswith("be:")]:
+        if v.startswith("be:") or v in ("uchar", "extra+ndebug"):
             strs_v = strs[:: (6 if ctx.tier == "quick" else 1)]
         else:
             strs_v = strs
@@ -2041,6 +2065,18 @@ def c18(ctx):
                         ctx.S("back end %s: a call history gives different outcomes than with libidn2" % be[3:], op="H " + scripts[i], variant=be, idn2=a, other=b0)
                 elif a != b:
                     ctx.S("back end %s decides an address differently than the libidn2 build" % be[3:], op="P %d %d 760 %s" % (key[0], key[1], hx(mails[i])), variant=be, idn2=a, other=b)
+    # the EAV_EXTRA records in each back end (their initialisation is per back end): accepted and rejected addresses in turn, every mode
+    rej = [b"no-at-sign.example-host.org", b"a..b@x", b"", b"a@[1.2.3", b"a@b.com", b"bad@", b"a@[1.2.3.4]", "\u0436@\u043f\u043e\u0447\u0442\u0430.\u0440\u0444".encode(), b'"a b"@b.ru', b"a@-b.com",
+           b"a" * 70 + b"@b.com", b"a@[IPv6:::1]", b"@b.com"]
+    xouts = {}
+    for v in [x for x in ctx.drives if x.endswith("+extra")]:
+        xouts[v] = ctx.K("extra-record", v, ["P %d %d %d %s" % (m, t, 760, hx(x)) for m in MODES for t in (0, 1) for x in rej + mails[::40]], nontrivial=lambda op, ln: True)
+    if "be:idn2+extra" in xouts:
+        for v, lines in xouts.items():
+            for i, (a, b_) in enumerate(zip(xouts["be:idn2+extra"], lines)):
+                if a != b_:
+                    ctx.S("EAV_EXTRA build of back end %s returns another record than the libidn2 build" % v[3:-6], op="P ... extra-record #%d" % i, variant=v, idn2=a, other=b_)
+                    break
     # two objects side by side in each back end (a context shared between objects would be released under the other's feet)
     for be in bes:
         check_two_objects(ctx, "two-objects", two_object_scripts(ctx, "ж@почта.рф".encode()), variant=be)
@@ -2079,7 +2115,7 @@ def c18(ctx):
             if mres and (int(mres.group(3)) != 0 or int(mres.group(4)) != 0 or mres.group(1) != mres.group(2)):
                 ctx.S("idnkit: idn_resconf contexts created %s, destroyed %s, live %s, bad destroys %s after a history with a failed context creation" % mres.groups(), op="H " + sw, variant=be, impl=a)
 RULES["C18"] = "distinct (back end, op) pairs; partial/idn2, partial/idn and partial/idnkit compiled against shim headers onto one converter; address corpus of C15/C16 in four modes and tld on/off, call histories (with injected IDN failures); idnkit create/destroy counters"
-VARIANTS_OF["C18"] = {"quick": ["be:idn2", "be:idn", "be:idnkit"], "thorough": ["be:idn2", "be:idn", "be:idnkit"]}
+VARIANTS_OF["C18"] = {"quick": ["be:idn2", "be:idn", "be:idnkit", "be:idn2+extra", "be:idnkit+extra"], "thorough": ["be:idn2", "be:idn", "be:idnkit", "be:idn2+extra", "be:idn+extra", "be:idnkit+extra"]}
 TRUSTED_EXTRA["C18"] = ["shims/idna.h, shims/idn/api.h, shims/shim_impl.c: stand-ins for GNU libidn and idnkit (neither is installed), forwarding to libidn2"]
 
 
@@ -2708,6 +2744,7 @@ def c20(ctx):
     errs = errors_table()
     corpus = [s for s in diag_corpus(ctx) if 0 not in s and b"\n" not in s]
     shapes = [b'"john"smith@gmail.com', b'john."q"x@gmail.com', b'"a"b@b.com', b'"a".b@b.com', b'a."b"@b.com', b'"a" b@b.com', b'"a"\xc3\xa9@b.com', b'"a\\"b"@b.com',
+              "\ufeffuser@example.com".encode(), "\ufeff@example.com".encode(), "\ufeff# not a comment".encode(), "\ufeff".encode(), "\ufeff \ufeffa@b.com".encode(),
               b'"a"."b"@example.com', '"\u00e4"..b@example.com'.encode(), b'"q".@example.com', b'"a"."b".c@example.com', b'a."b"."c"@example.com', '"\u00e4"."\u00f6"@example.com'.encode(),
               b"", b" ", b"  ", b"\t", b"#comment", b"# a@b.com", b" #notcomment@b.com", b"a@b.com", b" a@b.com", b"a@b.com ", b"a@b.com\t", b" a@b.com \t", b"a@b.com  ",
               b"\xff", b"a\xff@b.com", b"\xc3", b"\xe2\x82", b"a@b.com\r", b"a\rb@c.com", b"\r", b"a@\x01.com", b"\x7f@b.com", "ж@почта.рф".encode(), "пример@почта.рф ".encode(),
@@ -2828,6 +2865,35 @@ def c20(ctx):
         pairs = pairs[::2] + [[a_ + b"\n" + b_ + b"\n"] for a_ in il[:2] for b_ in il[:4] if a_ != b_]
     runs += pairs + [[b"\n".join(il) + b"\n"], [b"\n".join(reversed(il)) + b"\n"]]
     cli_main_compare(ctx, exe, env, runs)
+    # the same bytes through a pipe (`eav /dev/stdin`) and through a FIFO: a file is what `fopen` and `getline` deliver, whatever `stat` says about it
+    pipe_files = [b"a@b.com\nbad\n#c\n\nuser@example.org\r\n", b"x@y.org", b"", b"\n", b"first@ok.com\n" + b"a" * 5000 + b"@b.com\nlast@ok.com"]
+    for k_, f_ in enumerate(pipe_files):
+        fn = os.path.join(ctx.scr.dir, "cli_pipe.txt")
+        open(fn, "wb").write(f_)
+        ref = vlib.run_timed([exe, fn], 120, env=env)
+        via = vlib.run_timed([exe, "/dev/stdin"], 120, env=env, input=f_)
+        ctx.evals += 2
+        ctx.nontrivial.add("pipe:%d" % k_)
+        if via.timed_out or via.returncode != ref.returncode or via.stdout != ref.stdout:
+            ctx.S("the tool prints something else for the same bytes read through a pipe (eav /dev/stdin) than read from a regular file", op="cli " + hx(f_)[:600],
+                  regular=repr((ref.stdout or b"")[:200]), pipe=repr((via.stdout or b"")[:200]), exit_regular=ref.returncode, exit_pipe=via.returncode)
+        fifo = os.path.join(ctx.scr.dir, "cli_fifo")
+        if os.path.exists(fifo): os.remove(fifo)
+        os.mkfifo(fifo)
+        import threading
+        def feed(path=fifo, data=f_):
+            try:
+                with open(path, "wb") as w: w.write(data)
+            except OSError:
+                pass
+        th = threading.Thread(target=feed, daemon=True); th.start()
+        viaf = vlib.run_timed([exe, fifo], 120, env=env)
+        th.join(5)
+        os.remove(fifo)
+        ctx.evals += 1
+        if viaf.timed_out or viaf.returncode != ref.returncode or viaf.stdout != ref.stdout:
+            ctx.S("the tool prints something else for the same bytes read through a FIFO than read from a regular file", op="cli " + hx(f_)[:600],
+                  regular=repr((ref.stdout or b"")[:200]), fifo=repr((viaf.stdout or b"")[:200]), exit_regular=ref.returncode, exit_fifo=viaf.returncode)
     # one line of several megabytes between two ordinary ones (with the default 8 MiB stack): three verdicts, normal exit
     for mb in ((3,) if ctx.tier == "quick" else (3, 9)):
         fn = os.path.join(ctx.scr.dir, "cli_huge.txt")
